@@ -1,10 +1,10 @@
 ---------------------------- MODULE OrderDesign ----------------------------
-(* Design-level model of C06: the laws of Order.tla evaluated on the reference tables (T <- RefT in the   *)
+(* Design-level model of C06: the laws of Order.tla evaluated on the reference tables (Mode = "design" in the   *)
 (* cfg), and the export of the universe for the conformance run.                                           *)
 (*   Canonical = FALSE (documented rules): the laws hold outside the two zones, and TLC must FIND the      *)
 (*     design counter-examples inside the dict-key-order zone (DesignFindings).                            *)
 (*   Canonical = TRUE (dict lt / hash on sorted keys): the laws hold on the whole universe.                *)
-EXTENDS Order, Json, IOUtils
+EXTENDS Order
 
 ASSUME UniverseOK
 
